@@ -34,6 +34,12 @@ async def act(api, cls, dev, k, f):
     if k == 0:
         await dev.listen(bool(f)); await api.connect()
     elif k == 1: await api.disconnect()
+    elif k == 2 and f == 3:
+        # an operation attempted on a client that was connected once and is disconnected now: whatever it does (raise, or return an
+        # unsuccessful response), it is not a connect - the flag stays False and the device is not dialled
+        if not api.connected and getattr(api, "_writer", None) is not None and dev.srv:
+            try: await (api.control_device(Command.ON) if cls is SwitcherType1Api else api.stop())
+            except Exception: pass
     elif k == 2:
         if api.connected and dev.srv:
             if f == 2:          # the device answers the login packet by ending its stream (half-close): the operation raises, nothing disconnects
@@ -64,6 +70,7 @@ async def run_seq(cls, dev, acts, ip):
             with time_machine.travel(time.time() + 60 * f, tick=True): flag = api.connected
             out += ("C" if flag else "c") + "%d,%d" % (dev.open, dev.eofs) + "t|"; continue
         if hung: out += "never-returned|"; continue
+        if (k, f) == (2, 3): o = "~"
         try:
             await asyncio.wait_for(act(api, cls, dev, k, f), PATIENCE)
         except asyncio.TimeoutError as e:
@@ -119,6 +126,7 @@ def model_acts(acts, type2=False):
         elif 3 <= k <= 7:
             listening = bool(f)
             if f: conn = False
+        if (k, f) == (2, 3): out.append([8, 0]); continue          # not a model action: the previous observation repeats
         if k == 2:
             if conn and listening:
                 if f == 2: dead = True
@@ -140,10 +148,11 @@ def run_sequences(out, stream, cls, seqs):
     io = asyncio.run(go())
     mo = lib.run_model([lib.req("client", [a for a in model_acts(s, cls is SwitcherType2Api) if a[0] != 8]) for s in seqs])
     for j, s_ in enumerate(seqs):           # the model has no clock: a jump of the wall clock repeats the previous observation
-        if any(k == 8 for k, _ in s_):
+        if any(k == 8 or (k, f) == (2, 3) for k, f in s_):
             it = iter(mo[j].split("|")[:-1]); outl = []; prev = "c0,0."
             for k, f in s_:
-                if k == 8: outl.append(prev[:-1] + "t")
+                if (k, f) == (2, 3): outl.append(prev[:-1] + "~")
+                elif k == 8: outl.append(prev[:-1] + "t")
                 else: prev = next(it); outl.append(prev)
             mo[j] = "".join(x + "|" for x in outl)
     skipped = [j for j, t in enumerate(io) if t is None]
@@ -160,13 +169,14 @@ def run_sequences(out, stream, cls, seqs):
 
 def run(tier, rnd, out):
     alphabet = [(0, 1), (0, 0), (1, 0), (2, 0), (2, 1), (3, 1), (3, 0), (4, 1)]
-    wide = alphabet + [(5, 1), (6, 1), (7, 1), (4, 0), (5, 0), (2, 2), (2, 2), (8, 2), (8, 90), (8, 60 * 24 * 3)]
+    wide = alphabet + [(5, 1), (6, 1), (7, 1), (4, 0), (5, 0), (2, 2), (2, 2), (8, 2), (8, 90), (8, 60 * 24 * 3), (2, 3), (2, 3)]
     by = {"SwitcherType1Api": SwitcherType1Api, "SwitcherType2Api": SwitcherType2Api}
     for c in lib.load_corpus("C18"): run_sequences(out, "corpus", by[c["cls"]], [[tuple(a) for a in c["acts"]]])
     seqs = [list(s) for L in ((1, 2, 3) if tier == "quick" else (1, 2, 3, 4)) for s in itertools.product(alphabet, repeat=L)]
     seqs += [[rnd.choice(alphabet) for _ in range(rnd.randrange(4, 9))] for _ in range(60 if tier == "quick" else 1500)]
     seqs += [[a, b] for a in wide for b in wide] + [[rnd.choice(wide) for _ in range(rnd.randrange(3, 7))] for _ in range(60 if tier == "quick" else 1500)]
-    seqs += [[(0, 1), (2, 2), a, b] for a in wide for b in alphabet[:5]]           # what follows a half-closed login, with and without a reconnect
+    seqs += [[(0, 1), (2, 2), a, b] for a in wide for b in alphabet[:5]]
+    seqs += [[(0, 1), (1, 0), (2, 3), a] for a in alphabet] + [[(3, 1), (2, 3), a] for a in alphabet] + [[(0, 1), (2, 0), (1, 0), (2, 3), (2, 3), (0, 1), (2, 0), (1, 0)]]           # what follows a half-closed login, with and without a reconnect
     for cls in (SwitcherType1Api, SwitcherType2Api): run_sequences(out, "sequences", cls, seqs)
     out.exhaustive = True
     out.notes.append("exhaustive over all action sequences up to length %d for both classes" % (3 if tier == "quick" else 4))
